@@ -34,6 +34,20 @@ CLAIMED = {
         'possibly-None level. Does not decide that assignments form a '
         'root-to-leaf path nor totality beyond the None-key rule.',
         'DESIGN.md section 5, C01'),
+    'C05': (
+        'dispatch folding by conditional constant propagation, value '
+        'identity on symbolic terms (cursor rule), sign analysis over '
+        'reaching definitions',
+        'Decides: every encoding (array/csr/csc) reaches a non-raising '
+        'arm in each of the seven encoding dispatchers and the row '
+        'iterator selects a different arm for each; both row iterators '
+        'cut, report and advance by the same bounds and stop at n_rows; '
+        'no budget-, division- or rounding-derived range step / slice '
+        'stride, and no count-derived HDF5 chunk extent, in the anchored '
+        'files can be zero, and chunk extents are bounded by their own '
+        'axis. Value-exactness of the reads (index arithmetic) is not '
+        'decided.',
+        'DESIGN.md section 5, C05'),
     'C10': (
         'CFG must-call, encapsulation (mutation through aliases decided by '
         'symbolic expansion, transitive purity of helpers), intra-package '
@@ -50,6 +64,17 @@ CLAIMED = {
         'present as a raising guard. Whether those checks suffice, and the '
         'algebra of leaf pairs / inverse queries, are not decided.',
         'DESIGN.md section 5, C10'),
+    'C13': (
+        'sign analysis, value identity on symbolic terms (range / slice / '
+        'piece list), freshness provenance, dispatch folding',
+        'Decides: no zero step / zero or oversized chunk extent in the '
+        'transposition and reshaping files for counts the domain allows '
+        'to be 0; the parallel transposition hands consecutive disjoint '
+        'sub-ranges of one range to workers that each get a fresh file, '
+        'and joins the pieces in dispatch order; both encoding '
+        'dispatchers of anndata_utils are total. Pointer arithmetic of '
+        'the fill pass and merges is not decided.',
+        'DESIGN.md section 5, C13'),
     'C14': (
         'CFG acquire/release pairing, exit-code operator check, handler '
         're-raise check, dominance, HDF5 schema comparison',
